@@ -349,6 +349,22 @@ func c20Eval(cs C20Case) (res string, queries int) {
 				return fmt.Sprintf("FindAVPsWithPath(%v): %d AVPs, the strict per-level walk finds %d (or other AVPs / order)", keys, len(got), len(want)), queries
 			}
 		}
+		// paths with an element the message's dictionary cannot resolve (an undefined number, an
+		// undefined name) in front of, between and behind resolvable ones: no AVP lies on such a path
+		for _, bad := range []interface{}{uint32(c20UndefCode), int(c20UndefCode), "No-Such-AVP"} {
+			for ai, a := range alpha {
+				for _, b := range alpha[:2] {
+					for pi, keys := range [][]interface{}{{bad, a}, {bad, a, b}, {a, bad, b}, {names[ai], bad, b}, {a, b, bad}} {
+						_ = pi
+						queries++
+						got, err := m.FindAVPsWithPath(keys, 0)
+						if err == nil && len(got) != 0 {
+							return fmt.Sprintf("FindAVPsWithPath(%v): %d AVPs returned although %v does not resolve through the message's dictionary (an AVP that is not on the requested path)", keys, len(got), bad), queries
+						}
+					}
+				}
+			}
+		}
 		return "", queries
 	}
 	res, queries = pass()
@@ -530,7 +546,7 @@ func c20Enum(ctx *ev.Ctx, fn func(C20Case)) string {
 			}
 		}
 	}
-	return "all AVP trees over two leaf codes, two grouped codes and one leaf that carries the code of a Grouped AVP under a foreign vendor id (opaque data, not a group) and one container whose code the dictionary declares as OctetString but which the application assembled as a group: every single node of nesting depth <=3 with inner width <=3 (outermost group: <=2 children quick, <=3 thorough), alone and next to a leaf in both orders; every ordered pair (and a family of triples) of depth-<=2 nodes; empty groups, repeated codes at several depths, groups in groups; leaves with codes 2147483648 and 3000000000 (private dictionary; asked for as uint32, as int and by name); chains of 1..40 nested groups (innermost empty or holding a leaf, with or without a sibling leaf at every level). Per tree: FindAVP and FindAVPs by uint32, int and name for every code of the alphabet, a defined but absent code, an undefined code and an undefined name; FindAVPsWithPath for every path of length <=3 over the alphabet plus the absent code, alternating number (uint32 or int) and name per step. Every tree is searched twice: in a message carrying dict.Default and in one carrying a private dictionary that names the four codes differently and attaches the default names to codes absent from the tree (a name must resolve through the message's own dictionary). After the first round of queries each message is edited without going through Message.AddAVP / InsertAVP (a member added to its first group, its first top-level AVP cut out of the exported slice, its AVPs replaced by Marshal) and every query is asked again. Path searches are also made overlapping in time (a nested search on another message, started from inside the outer one through a caller-defined data type) after a search whose path did not resolve. Every tree in which a group subtree occurs more than once is also built with ONE node object for all its occurrences (a prebuilt group attached in several places): every occurrence must still be reported, in pre-order. Results are compared by pointer identity with a pre-order reference walk / strict per-level match."
+	return "all AVP trees over two leaf codes, two grouped codes and one leaf that carries the code of a Grouped AVP under a foreign vendor id (opaque data, not a group) and one container whose code the dictionary declares as OctetString but which the application assembled as a group: every single node of nesting depth <=3 with inner width <=3 (outermost group: <=2 children quick, <=3 thorough), alone and next to a leaf in both orders; every ordered pair (and a family of triples) of depth-<=2 nodes; empty groups, repeated codes at several depths, groups in groups; leaves with codes 2147483648 and 3000000000 (private dictionary; asked for as uint32, as int and by name); chains of 1..40 nested groups (innermost empty or holding a leaf, with or without a sibling leaf at every level). Per tree: FindAVP and FindAVPs by uint32, int and name for every code of the alphabet, a defined but absent code, an undefined code and an undefined name; FindAVPsWithPath for every path of length <=3 over the alphabet plus the absent code, alternating number (uint32 or int) and name per step, and paths with an unresolvable element in front of, between and behind resolvable ones (never an AVP). Every tree is searched twice: in a message carrying dict.Default and in one carrying a private dictionary that names the four codes differently and attaches the default names to codes absent from the tree (a name must resolve through the message's own dictionary). After the first round of queries each message is edited without going through Message.AddAVP / InsertAVP (a member added to its first group, its first top-level AVP cut out of the exported slice, its AVPs replaced by Marshal) and every query is asked again. Path searches are also made overlapping in time (a nested search on another message, started from inside the outer one through a caller-defined data type) after a search whose path did not resolve. Every tree in which a group subtree occurs more than once is also built with ONE node object for all its occurrences (a prebuilt group attached in several places): every occurrence must still be reported, in pre-order. Results are compared by pointer identity with a pre-order reference walk / strict per-level match."
 }
 
 func runC20(ctx *ev.Ctx) {
